@@ -53,7 +53,7 @@ func verifyOne(prog *Program, cs *ContractSet, con *Contract, workDir string, ti
 		return rep
 	}
 	if con.Opts["mode"] == "bvfp" {
-		bound, tmo := 16, timeoutS
+		bound, tmo := 16, 90
 		if gTier == "thorough" {
 			bound, tmo = 32, 600
 		}
@@ -181,7 +181,7 @@ func main() {
 	if *work == "" {
 		*work = filepath.Join(*verif, "work", fmt.Sprintf("%s-%d", cmd, os.Getpid()))
 	}
-	tmo := 10
+	tmo := 30
 	if *tier == "thorough" {
 		tmo = 120
 	}
